@@ -32,7 +32,7 @@ def c05a(tree, ob):
     fv = FuncView(tree, FRAG, Q)
     defs = norm.local_assigns(fv.func, 'should_fragment')
     d = one(defs, 'should_fragment definition', ob)
-    val = norm.strip(d[1])
+    val = norm.strip(fv.value_at(d[1], d[0], keep=('bundle_flags', 'mtu', 'orig_size')))
     if not (isinstance(val, ast.BoolOp) and isinstance(val.op, ast.And)):
         ob.violate(FRAG, Q, src(d[0])[:120], 'the fragmentation decision is not a conjunction', d[0])
         return
